@@ -10,7 +10,8 @@ EXTENDS TreeOrder, VerifEmit
 CONSTANTS GenDepth,     \* simulation: emit at this depth (0 = exhaustive mode: emit every node)
           GenHistory,   \* emit history-tree expectations for every set of <= 2 stored heads
           GenReject,    \* generate rejected deliveries (DeliverRejected) and the step that follows them
-          GenOnlyAfterReject \* exhaustive mode: emit only behaviours that end with <rejected delivery, next step>
+          GenOnlyAfterReject \* exhaustive mode: emit only behaviours that end with <rejected delivery to a tree
+                        \* with several heads, next step> (the rollback has to restore more than a single head)
 
 VARIABLES hist,
           rj            \* [ph, r]: ph = 1 right after a rejected delivery to tree r, 2 one step later, else 0.
@@ -18,7 +19,7 @@ VARIABLES hist,
                         \* views) the exhaustive generation would never continue a behaviour after it.
 gvars == <<vars, hist, rj>>
 
-NoRj == [ph |-> 0, r |-> 0]
+NoRj == [ph |-> 0, r |-> 0, mh |-> FALSE]
 \* after a rejected delivery the next step is taken by the same tree (other continuations are
 \* those of the unchanged state)
 After(r) == rj.ph # 1 \/ rj.r = r
@@ -63,7 +64,7 @@ GDeliver(dst, src, B, p) ==
 GReject(dst, src, B, p, bad) ==
     /\ GenReject /\ rj.ph # 1
     /\ DeliverRejected(dst, src, B, p, bad)
-    /\ rj' = [ph |-> 1, r |-> dst]
+    /\ rj' = [ph |-> 1, r |-> dst, mh |-> Cardinality(TreeHeads(rep[dst])) > 1]
     /\ hist' = Append(hist, [act |-> "Reject", r |-> dst, src |-> src, batch |-> B, bad |-> bad,
                              heads |-> AscSeq(TreeHeads(rep[src])),
                              path |-> IF p THEN PathOf(rep[src]) ELSE <<>>,
@@ -111,6 +112,6 @@ Behaviour == [spec |-> "TreeOrder", fix |-> FixCommonSnapshot,
 
 EmitNow == /\ hist # <<>>
            /\ (GenDepth = 0 \/ hist[Len(hist)].act = "Done")
-           /\ (GenOnlyAfterReject => rj.ph = 2)
+           /\ (GenOnlyAfterReject => rj.ph = 2 /\ rj.mh)
 Emit == EmitWhen(EmitNow, Behaviour)
 =============================================================================
